@@ -285,7 +285,75 @@ fn check_u64(x: u64, do_json: bool, acc: &mut Acc) {
             (Err(_), false) => {}
             _ => bad(acc, "U53", "json_deserialize", x as i128, format!("accept={want}"), format!("{d:?}")),
         }
+        for (shape, got) in buffered_u(&lit) {
+            acc.json += 1;
+            if got != want.then_some(x) {
+                bad(acc, "U53", &format!("json_deserialize_inside:{shape}"), x as i128, format!("accept={want}"), format!("{got:?}"));
+            }
+        }
     }
+}
+
+// the shapes through which serde buffers a value before handing it on (typeshare's own enum representation among them)
+#[derive(serde::Deserialize, serde::Serialize)]
+#[serde(tag = "type", content = "content")]
+enum TaggedU {
+    V(U53),
+}
+#[derive(serde::Deserialize, serde::Serialize)]
+#[serde(tag = "type", content = "content")]
+enum TaggedI {
+    V(I54),
+}
+#[derive(serde::Deserialize)]
+struct InnerU {
+    v: U53,
+}
+#[derive(serde::Deserialize)]
+struct FlatU {
+    #[serde(flatten)]
+    inner: InnerU,
+}
+#[derive(serde::Deserialize)]
+struct InnerI {
+    v: I54,
+}
+#[derive(serde::Deserialize)]
+struct FlatI {
+    #[serde(flatten)]
+    inner: InnerI,
+}
+#[derive(serde::Deserialize)]
+#[serde(untagged)]
+enum UntaggedU {
+    A(U53),
+}
+#[derive(serde::Deserialize)]
+#[serde(untagged)]
+enum UntaggedI {
+    A(I54),
+}
+
+/// (shape name, accepted value) for the literal in each buffered shape
+fn buffered_u(lit: &str) -> Vec<(&'static str, Option<u64>)> {
+    vec![
+        ("adjacently-tagged-content-first", serde_json::from_str::<TaggedU>(&format!("{{\"content\":{lit},\"type\":\"V\"}}")).ok().map(|TaggedU::V(v)| u64::from(v))),
+        ("adjacently-tagged-type-first", serde_json::from_str::<TaggedU>(&format!("{{\"type\":\"V\",\"content\":{lit}}}")).ok().map(|TaggedU::V(v)| u64::from(v))),
+        ("flattened-struct", serde_json::from_str::<FlatU>(&format!("{{\"v\":{lit}}}")).ok().map(|f| u64::from(f.inner.v))),
+        ("untagged-enum", serde_json::from_str::<UntaggedU>(lit).ok().map(|UntaggedU::A(v)| u64::from(v))),
+        ("vec-element", serde_json::from_str::<Vec<U53>>(&format!("[{lit}]")).ok().and_then(|v| v.first().map(|x| u64::from(*x)))),
+        ("from-value", serde_json::from_str::<serde_json::Value>(lit).ok().and_then(|v| serde_json::from_value::<U53>(v).ok()).map(u64::from)),
+    ]
+}
+fn buffered_i(lit: &str) -> Vec<(&'static str, Option<i64>)> {
+    vec![
+        ("adjacently-tagged-content-first", serde_json::from_str::<TaggedI>(&format!("{{\"content\":{lit},\"type\":\"V\"}}")).ok().map(|TaggedI::V(v)| i64::from(v))),
+        ("adjacently-tagged-type-first", serde_json::from_str::<TaggedI>(&format!("{{\"type\":\"V\",\"content\":{lit}}}")).ok().map(|TaggedI::V(v)| i64::from(v))),
+        ("flattened-struct", serde_json::from_str::<FlatI>(&format!("{{\"v\":{lit}}}")).ok().map(|f| i64::from(f.inner.v))),
+        ("untagged-enum", serde_json::from_str::<UntaggedI>(lit).ok().map(|UntaggedI::A(v)| i64::from(v))),
+        ("vec-element", serde_json::from_str::<Vec<I54>>(&format!("[{lit}]")).ok().and_then(|v| v.first().map(|x| i64::from(*x)))),
+        ("from-value", serde_json::from_str::<serde_json::Value>(lit).ok().and_then(|v| serde_json::from_value::<I54>(v).ok()).map(i64::from)),
+    ]
 }
 
 /// in-range anchors compared with every enumerated wide integer, in or out of range (heterogeneous ==, <, >, partial_cmp)
@@ -397,6 +465,12 @@ fn check_i64(x: i64, do_json: bool, acc: &mut Acc) {
             (Ok(v), true) if i64::from(*v) == x => {}
             (Err(_), false) => {}
             _ => bad(acc, "I54", "json_deserialize", x as i128, format!("accept={want}"), format!("{d:?}")),
+        }
+        for (shape, got) in buffered_i(&lit) {
+            acc.json += 1;
+            if got != want.then_some(x) {
+                bad(acc, "I54", &format!("json_deserialize_inside:{shape}"), x as i128, format!("accept={want}"), format!("{got:?}"));
+            }
         }
     }
 }
